@@ -96,7 +96,7 @@ def observe(case):
 
 
 def norm_tokens(text):
-    """Content tokens for the 'expression text carried over unchanged' clause: user names, numeric,
+    """Content tokens for the 'expression text carried over unchanged' clause: user names (compared without regard to case), numeric,
     BOZ and character literals and dotted operators in order; keywords, punctuation and '::' are
     fparser1's to canonicalise (REWIND 10 -> REWIND (10), COMMON // c -> COMMON c, DO 10, i -> DO 10 i)."""
     out = []
@@ -125,7 +125,7 @@ def norm_tokens(text):
             elif k == "name":
                 low = t.lower()
                 if low not in lexer.KEYWORDS and low not in lexer.COMPOUND:
-                    out.append(t)
+                    out.append(low)          # fparser1 works on the lower-cased statement: letter case of names is its to change
     return out
 
 
